@@ -56,26 +56,27 @@ type PluginConf struct {
 
 // HostConf is the client side of a cell.
 type HostConf struct {
-	Allowed        []string `json:"allowed"` // nil = default
-	TLS            string   `json:"tls"`     // none | static | auto
-	Mux            bool     `json:"mux"`
-	Launch         string   `json:"launch"` // cmd | runner | reattach
-	Legacy         int      `json:"legacy"` // -1 none
-	Versions       []int    `json:"versions,omitempty"`
-	SkipHostEnv    bool     `json:"skip_host_env"`
-	Conflict       string   `json:"conflict,omitempty"` // cmd+reattach | secure+reattach | mux+reattach
-	Script         string   `json:"script,omitempty"`   // plugin is this shell script
-	StartTimeoutMs int      `json:"start_timeout_ms,omitempty"`
-	StartTimeoutNs int      `json:"start_timeout_ns,omitempty"` // a start timeout shorter than the launch itself
-	GRPCBlock      bool     `json:"grpc_block,omitempty"`       // ClientConfig.GRPCDialOptions = [grpc.WithBlock()]
-	ScriptLine     string   `json:"script_line,omitempty"`      // plugin is a shell script printing this line instead of vplugin
-	Group          string   `json:"group,omitempty"`            // UnixSocketConfig.Group
-	Managed        bool     `json:"managed,omitempty"`          // ClientConfig.Managed (for CleanupClients)
-	AmbientInCmd   bool     `json:"ambient_in_cmd,omitempty"`   // the cell's ambient variables are put into Cmd.Env, not into the host's environment
-	MinPort        uint     `json:"min_port,omitempty"`
-	MaxPort        uint     `json:"max_port,omitempty"`
-	CertPEM        string   `json:"cert_pem,omitempty"` // static TLS: trust this server certificate
-	KeyPEM         string   `json:"key_pem,omitempty"`
+	Allowed         []string `json:"allowed"` // nil = default
+	TLS             string   `json:"tls"`     // none | static | auto
+	Mux             bool     `json:"mux"`
+	Launch          string   `json:"launch"` // cmd | runner | reattach
+	Legacy          int      `json:"legacy"` // -1 none
+	Versions        []int    `json:"versions,omitempty"`
+	SkipHostEnv     bool     `json:"skip_host_env"`
+	Conflict        string   `json:"conflict,omitempty"` // cmd+reattach | secure+reattach | mux+reattach
+	Script          string   `json:"script,omitempty"`   // plugin is this shell script
+	StartTimeoutMs  int      `json:"start_timeout_ms,omitempty"`
+	StartTimeoutNs  int      `json:"start_timeout_ns,omitempty"`  // a start timeout shorter than the launch itself
+	GRPCBlock       bool     `json:"grpc_block,omitempty"`        // ClientConfig.GRPCDialOptions = [grpc.WithBlock()]
+	SharedSocketCfg bool     `json:"shared_socket_cfg,omitempty"` // every client of the cell gets the same *UnixSocketConfig
+	ScriptLine      string   `json:"script_line,omitempty"`       // plugin is a shell script printing this line instead of vplugin
+	Group           string   `json:"group,omitempty"`             // UnixSocketConfig.Group
+	Managed         bool     `json:"managed,omitempty"`           // ClientConfig.Managed (for CleanupClients)
+	AmbientInCmd    bool     `json:"ambient_in_cmd,omitempty"`    // the cell's ambient variables are put into Cmd.Env, not into the host's environment
+	MinPort         uint     `json:"min_port,omitempty"`
+	MaxPort         uint     `json:"max_port,omitempty"`
+	CertPEM         string   `json:"cert_pem,omitempty"` // static TLS: trust this server certificate
+	KeyPEM          string   `json:"key_pem,omitempty"`
 	// a certificate that the machine's trust store lists (SSL_CERT_FILE of the host process and of the plugins
 	// it launches) although it is neither side's AutoMTLS certificate; intruder class tls-systrusted presents it
 	SysTrustCert string `json:"sys_trust_cert,omitempty"`
@@ -381,6 +382,7 @@ func RunCell(c *Cell) (res *Result) {
 		}
 		res.Ops = append(res.Ops, r)
 	}
+	var sharedUSC *plugin.UnixSocketConfig
 	cur := func() int { return len(clients) - 1 }
 	for _, op := range c.Ops {
 		bare, _, _ := strings.Cut(op, "!") // "!<expectation>" suffixes are for the driver
@@ -395,6 +397,12 @@ func RunCell(c *Cell) (res *Result) {
 			case "runner":
 				cmd0 := mkCmd()
 				cfg.UnixSocketConfig = &plugin.UnixSocketConfig{TempDir: hostTmp}
+				if c.Host.SharedSocketCfg { // the application keeps one UnixSocketConfig for all its plugins
+					if sharedUSC == nil {
+						sharedUSC = cfg.UnixSocketConfig
+					}
+					cfg.UnixSocketConfig = sharedUSC
+				}
 				cfg.RunnerFunc = func(l hclog.Logger, cmd *exec.Cmd, tmp string) (runner.Runner, error) {
 					cmd.Path, cmd.Args = cmd0.Path, cmd0.Args
 					cmd.Env = append(cmd.Env, cmd0.Env...)
@@ -844,6 +852,8 @@ func RunCell(c *Cell) (res *Result) {
 				}
 			}
 			record(op, t0, nil, v)
+		case "rmmarker": // forget the exit marker an earlier plugin of this cell wrote
+			os.Remove(c.Plugin.ExitMarker)
 		case "sleep":
 			ms, _ := strconv.Atoi(arg)
 			time.Sleep(time.Duration(ms) * time.Millisecond)
